@@ -1,4 +1,5 @@
 import EdpVerif.Basic.Bytes
+import EdpVerif.Generated.Misc
 /-!
 Model of crates/edp_client/src/framing.rs (`MessageFramer`, `MessageDeframer`), of the transport-facing
 contract of Tokio's `read_exact` / `read_u16` / `write_all` / `write_u16`, and of the second copy of the
@@ -19,10 +20,10 @@ The transport is an explicit script:
 namespace Edp.Framing
 open Edp
 
-/-- framing.rs `MAX_MESSAGE_SIZE` (256 MiB) -/
-def framingCap : Nat := 256 * 1024 * 1024
-/-- connection.rs `MAX_MESSAGE_SIZE` (64 MiB), used by `receive_message_from_read_half` -/
-def connCap : Nat := 64 * 1024 * 1024
+/-- framing.rs `MAX_MESSAGE_SIZE` (256 MiB), as the translator reads it from the source on every run -/
+def framingCap : Nat := Gen.FRAMING_MAX_MESSAGE_SIZE
+/-- connection.rs `MAX_MESSAGE_SIZE` (64 MiB), used by `receive_message_from_read_half`; regenerated likewise -/
+def connCap : Nat := Gen.CONN_MAX_MESSAGE_SIZE
 
 inductive Mode where
   | handshake
@@ -49,11 +50,15 @@ inductive WEv where
   | accept (k : Nat)
   | pending
   | fail
+  /-- `Pending` without a wake-up before the `tokio::time::timeout` around the write fires (`FramedTransport::write`):
+  the write future is dropped, what the sink had accepted stays on the wire -/
+  | stall
   deriving DecidableEq, Repr
 
 inductive WErr where
   | writeZero
   | io
+  | timeout
   deriving DecidableEq, Repr
 
 /-- result of a write loop: outcome, the chunks the sink accepted (in order), the rest of the script -/
@@ -69,28 +74,70 @@ def writeAll : Bytes → List WEv → WOut
   | b :: bs, [] => ⟨.ok (), [b :: bs], []⟩
   | b :: bs, .pending :: s => writeAll (b :: bs) s
   | _ :: _, .fail :: s => ⟨.error .io, [], s⟩
+  | _ :: _, .stall :: s => ⟨.error .timeout, [], s⟩
   | b :: bs, .accept k :: s =>
     if k = 0 then ⟨.error .writeZero, [], s⟩
     else
       let o := writeAll ((b :: bs).drop k) s
       ⟨o.res, (b :: bs).take k :: o.chunks, o.rest⟩
 
-/-- outcome of `write_framed`: result, accepted chunks, number of `flush` calls that reached the sink -/
+/-- what successive `poll_flush` calls of the sink do: complete, `Pending` (woken again), fail, or `Pending` with no
+wake-up before the surrounding timeout fires. An exhausted script completes. -/
+inductive FEv where
+  | done
+  | pending
+  | fail
+  | stall
+  deriving DecidableEq, Repr
+
+/-- Tokio `flush()`: poll until ready -/
+def flushAll : List FEv → Except WErr Unit × List FEv
+  | [] => (.ok (), [])
+  | .done :: r => (.ok (), r)
+  | .pending :: r => flushAll r
+  | .fail :: r => (.error .io, r)
+  | .stall :: r => (.error .timeout, r)
+
+/-- outcome of `write_framed`: result, accepted chunks, number of `flush` calls that completed (0 or 1), and what is
+left of the two scripts for the next call on the same sink -/
 structure WFOut where
   res : Except WErr Unit
   chunks : List Bytes
   flushes : Nat
+  rest : List WEv := []
+  frest : List FEv := []
 
-/-- `MessageFramer::write_framed`: `write_u16/u32(len as ..)`, `write_all(data)`, `flush()` with `?` after each. -/
-def writeFramed (mode : Mode) (msg : Bytes) (s : List WEv) : WFOut :=
+/-- `MessageFramer::write_framed`: `write_u16/u32(len as ..)`, `write_all(data)`, `flush()` with `?` after each
+(the step order is `Gen.WRITE_FRAMED_STEPS`). `fl` scripts the sink's `poll_flush`. -/
+def writeFramed (mode : Mode) (msg : Bytes) (s : List WEv) (fl : List FEv := []) : WFOut :=
   let o1 := writeAll (beN mode.prefixSize msg.length) s
   match o1.res with
-  | .error e => ⟨.error e, o1.chunks, 0⟩
+  | .error e => ⟨.error e, o1.chunks, 0, o1.rest, fl⟩
   | .ok () =>
     let o2 := writeAll msg o1.rest
     match o2.res with
-    | .error e => ⟨.error e, o1.chunks ++ o2.chunks, 0⟩
-    | .ok () => ⟨.ok (), o1.chunks ++ o2.chunks, 1⟩
+    | .error e => ⟨.error e, o1.chunks ++ o2.chunks, 0, o2.rest, fl⟩
+    | .ok () =>
+      match flushAll fl with
+      | (.error e, fr) => ⟨.error e, o1.chunks ++ o2.chunks, 0, o2.rest, fr⟩
+      | (.ok (), fr) => ⟨.ok (), o1.chunks ++ o2.chunks, 1, o2.rest, fr⟩
+
+/-- a caller that sends the messages one after the other through `FramedTransport::write`
+(= `timeout(d, write_framed)`) on the same socket and, following `Error::is_recoverable`, goes on after
+`Error::Timeout` (a retry is the same message twice in the list); any other error ends it.
+Returns the results and everything the sink accepted. -/
+def writeMany (mode : Mode) : List Bytes → List WEv → List FEv → List (Except WErr Unit) × List Bytes
+  | [], _, _ => ([], [])
+  | m :: ms, s, fl =>
+    let o := writeFramed mode m s fl
+    match o.res with
+    | .ok () =>
+      let r := writeMany mode ms o.rest o.frest
+      (.ok () :: r.1, o.chunks ++ r.2)
+    | .error .timeout =>
+      let r := writeMany mode ms o.rest o.frest
+      (.error .timeout :: r.1, o.chunks ++ r.2)
+    | .error e => ([.error e], o.chunks)
 
 /-! ## read side -/
 
@@ -218,7 +265,7 @@ inductive Body where
 
 def classifyBody : Bytes → Body
   | [] => .empty
-  | b :: r => if b = 112 then .pass r else .badMarker b
+  | b :: r => if b.toNat = Gen.CONN_PASS_THROUGH then .pass r else .badMarker b
 
 /-- repeated calls of the second copy until the first error -/
 def recvAll (cap : Nat) (evs : List Ev) : List (Except RErr Bytes) :=
@@ -227,5 +274,53 @@ def recvAll (cap : Nat) (evs : List Ev) : List (Except RErr Bytes) :=
 /-- the second copy under a caller that calls again after `Error::Timeout` -/
 def recvRetry (cap : Nat) (evs : List Ev) : List (Except RErr Bytes) :=
   iterRetryF (recvBody cap) (weight evs + 1) evs
+
+/-! ## `FramedTransport` (transport.rs): which half exists, and the frame mode of each direction -/
+
+/-- `FramedTransport`: `read_half` / `write_half` present, the mode of `framer` and of `deframer` -/
+structure TState where
+  rd : Bool
+  wr : Bool
+  fm : Mode
+  dm : Mode
+  deriving DecidableEq, Repr
+
+/-- `FramedTransport::new`: no stream, both directions in handshake mode -/
+def TState.new : TState := ⟨false, false, .handshake, .handshake⟩
+
+inductive TOp where
+  | connect | setMode (m : Mode) | close | takeRead | isConnected | hasWrite
+  | read (wire : Bytes)      -- the peer has sent `wire`; the caller reads until nothing is left
+  | write (msg : Bytes) | writeRaw (data : Bytes)
+  deriving DecidableEq, Repr
+
+/-- observable outcome of one operation -/
+inductive TRes where
+  | unit
+  | bool (b : Bool)
+  | noStream                               -- `Error::InvalidStateMessage("no active stream")`
+  | msgs (ms : List (Except RErr Bytes))   -- what `read` returned, call by call
+  | wire (bs : Bytes)                      -- what reached the peer
+  deriving Repr
+
+def tstep (cap : Nat) (st : TState) : TOp → TState × TRes
+  | .connect => ({ st with rd := true, wr := true }, .unit)
+  | .setMode m => ({ st with fm := m, dm := m }, .unit)
+  | .close => ({ st with rd := false, wr := false }, .unit)
+  | .takeRead => ({ st with rd := false }, .bool st.rd)
+  | .isConnected => (st, .bool (st.rd && st.wr))
+  | .hasWrite => (st, .bool st.wr)
+  | .read w => (st, if st.rd then .msgs ((iterF (readFramed cap st.dm) (w.length + 2) [.chunk w]).dropLast) else .noStream)
+  | .write m => (st, if st.wr then .wire (frame st.fm m) else .noStream)
+  | .writeRaw d => (st, if st.wr then .wire d else .noStream)
+
+def trun (cap : Nat) : TState → List TOp → List TRes
+  | _, [] => []
+  | st, op :: r => (tstep cap st op).2 :: trun cap (tstep cap st op).1 r
+
+/-- the state reached after a list of operations -/
+def tstate (cap : Nat) : TState → List TOp → TState
+  | st, [] => st
+  | st, op :: r => tstate cap (tstep cap st op).1 r
 
 end Edp.Framing
